@@ -71,6 +71,17 @@ pub enum Tx {
     /// harness-only marker (never encoded): the packet before it makes the broker close
     /// the connection, whatever follows in the same batch is ignored
     CloseMark,
+    /// harness-only marker: the packet before it does not make this broker close the
+    /// connection, but no statement forbids a broker to close for it
+    MayClose,
+    /// harness-only marker: the next packet is one a broker may refuse to process
+    Doubt,
+}
+
+impl Tx {
+    pub fn is_marker(&self) -> bool {
+        matches!(self, Tx::CloseMark | Tx::MayClose | Tx::Doubt)
+    }
 }
 
 /// broker -> client, as decoded by the client library
@@ -155,7 +166,7 @@ pub fn tx_bytes(tx: &Tx, v5: bool) -> Result<BytesMut, String> {
         buf.extend_from_slice(b);
         return Ok(buf);
     }
-    if let Tx::CloseMark = tx {
+    if tx.is_marker() {
         return Err("marker".into());
     }
     if !v5 {
@@ -196,7 +207,7 @@ pub fn tx_bytes(tx: &Tx, v5: bool) -> Result<BytesMut, String> {
             }
             Tx::PingReq => c4::Packet::PingReq,
             Tx::Disconnect => c4::Packet::Disconnect,
-            Tx::Raw(_) | Tx::CloseMark => unreachable!(),
+            Tx::Raw(_) | Tx::CloseMark | Tx::MayClose | Tx::Doubt => unreachable!(),
         };
         p.write(&mut buf, usize::MAX).map_err(|e| format!("{e:?}"))?;
     } else {
@@ -256,7 +267,7 @@ pub fn tx_bytes(tx: &Tx, v5: bool) -> Result<BytesMut, String> {
             Tx::Disconnect => c5::Packet::Disconnect(c5::Disconnect::new(
                 c5::DisconnectReasonCode::NormalDisconnection,
             )),
-            Tx::Raw(_) | Tx::CloseMark => unreachable!(),
+            Tx::Raw(_) | Tx::CloseMark | Tx::MayClose | Tx::Doubt => unreachable!(),
         };
         p.write(&mut buf, None).map_err(|e| format!("{e:?}"))?;
     }
